@@ -19,6 +19,7 @@ import Driver.C17
 import Driver.C18
 import Driver.Sys
 import Driver.Lapi
+import Driver.FBatch
 open Driver
 
 def machines : List (String × Machine × Machine) :=
@@ -43,7 +44,8 @@ def machines : List (String × Machine × Machine) :=
    ("C17", C17.machine, C17.judge),
    ("C18", C18.machine, C18.judge),
    ("SYS", Sys.machine, Sys.judge),
-   ("LAPI", Lapi.machine, Lapi.judge)]
+   ("LAPI", Lapi.machine, Lapi.judge),
+   ("FBATCH", FBatch.machine, FBatch.judge)]
 
 def main (args : List String) : IO UInt32 := do
   match args with
